@@ -444,9 +444,11 @@ def _check_early_returns(ctx, fi, pre, LEN):
         for cs, leaf in early:
             known = known_at(facts_pre, cs)
             n = None
+            # the size test may be written on the bytes read or - the read being length-checked - on the declared length
+            size_terms = [T.len_(raw)] + ([L] if T.eq(T.len_(raw), L) in known else [])
             for k in known:
-                if T.is_op(k, 'EQ') and T.len_(raw) in k[2:]:
-                    o = k[2] if k[3] == T.len_(raw) else k[3]
+                if T.is_op(k, 'EQ') and any(zt in k[2:] for zt in size_terms):
+                    o = k[3] if k[2] in size_terms else k[2]
                     if T.is_const(o) and isinstance(o[1], int):
                         n = o[1]
             if n is None or T.tag(leaf) != 'obj':
@@ -454,8 +456,11 @@ def _check_early_returns(ctx, fi, pre, LEN):
                              % T.show(leaf, maxdepth=3), fi.where)
                 continue
             R = S('raw%d' % n, type='bytes', len=n)
-            leaf_n = T.subst(leaf, {raw: R})
-            known_n = {T.subst(k, {raw: R}) for k in known}
+            sub_n = {raw: R}
+            if L in size_terms:
+                sub_n[L] = T.const(n)       # the declared length is the size of this fast path as well
+            leaf_n = T.subst(leaf, sub_n)
+            known_n = {T.subst(k, sub_n) for k in known}
             e2 = Evaluator(p, 'ecdsa')
             ser, _ = e2.call_function('script.Script.raw_serialize', [leaf_n])
             ser = _strip_raise(ser)
